@@ -35,6 +35,7 @@ VERUS_OBLIGATION_ERRORS = [
     ("possible truncation", "overflow"),
     ("unreachable", "panic-free(unreachable)"),
     ("precondition of", "requires@callsite"),
+    ("fails to satisfy `callee.requires(args)`", "requires@callsite"),
 ]
 VERUS_UNDECIDED = ["Resource limit (rlimit) exceeded", "rlimit"]
 
